@@ -380,4 +380,6 @@ def run(ctx, progs):
         from . import c16
         c16.r4_rotation_siblings(ctx, P, "C09.R8")
         stale.rule(ctx, P, "C09.R5", ("bump_string::BumpString<", "mut_bump_string::MutBumpString<"), 6, 8)
+        from . import twins
+        twins.rule(ctx, P, "C09.R9", "bump_string::BumpString<", "mut_bump_string::MutBumpString<", 8 if "nodefault" in (ctx.config or "") else 12)
     ctx.config = None
